@@ -255,7 +255,8 @@ def run_overloads(part: Sequence[str], allsigs: Sequence[str], base: int, res: D
 
 DEFAULTS = ['(a + b)[0]', '(a or b)[0]', '(-a)[1]', '2 ** (a + b)[1]', '(a, b)[0]', '(lambda: 0)()', '(a if b else c).d', '(yield_ := 1)', '[*a, *b]', '{**a}', 'f(*a, **k)', 'a[1:2, ::3]', '1', '-1', "'s'", 'None', 'a.b', '(1, 2)', '(1,)', '[x]', '{}', 'x or y', 'lambda x, y=1: 0', 'f(a, k=1)', 'a - (b - c)', '(0.0, 0)', '0 + 0.0',
             "b\"it's\"", '{1, 2}', '-(a + b) * c']
-ANNOTS = ['"A | B"', '"a - b"', '~"A | B"', 'int', 'None', "'None'", 'Optional[None]', "'int'", "'List[int]'", "List['A']", "Literal['a']", 'Optional["B"]', 'a.B', 'Callable[[int], str]', 'int | None', '"a.B"',
+PRELUDE = 'import mycompat as mc0\nfrom mycompat import Literal, Annotated\n'       # the typing forms come from a project-local compatibility module
+ANNOTS = ["mc0.Literal['r', 'w']", "Optional[mc0.Literal['ok', 'err']]", "mc0.Annotated[float, 'meters', 'positive']", '"A | B"', '"a - b"', '~"A | B"', 'int', 'None', "'None'", 'Optional[None]', "'int'", "'List[int]'", "List['A']", "Literal['a']", 'Optional["B"]', 'a.B', 'Callable[[int], str]', 'int | None', '"a.B"',
           'Tuple[int, ...]', "'Dict[str, \"A\"]'", 'C & "A | B"', '"A | B" & C', 'Tuple[()]', "Literal['A | B']", "typing.Literal['x', 1]", "'A' | 'B'",
           "Annotated[int, 'meta']", "Annotated['List[int]', 'not valid python', 3]", "t.Annotated[int, 'a | b']", "Optional[Annotated['A', 'unit']]", "'Callable[..., \"A\"]'",
           # Literal reached through any spelling: module aliases, nesting, inside a string annotation
@@ -378,7 +379,7 @@ def run_exprs(di: int, res: Dict[str, Any]) -> None:
         rows.append((f'p: {a} = {d}', ''))
         rows.append((f'p={d}, *, q: {a}', f' -> {a}'))
         rows.append((f'p, /, q: {a} = {d}, **k: {a}', ''))
-    src = '\n'.join(f'def f{i}({t}){ret}: pass' for i, (t, ret) in enumerate(rows)) + '\n'
+    src = PRELUDE + '\n'.join(f'def f{i}({t}){ret}: pass' for i, (t, ret) in enumerate(rows)) + '\n'
     s = pd.build_mem([pd.Mod('m', src)])
     dsig = default_sig(d)
     for i, (t, ret) in enumerate(rows):
@@ -400,7 +401,7 @@ def run_annotation_pairs(ai: int, res: Dict[str, Any]) -> None:
     from pydoctor.templatewriter.pages import format_signature
     a1 = ANNOTS[ai]
     rows = [(f'p: {a1}, q: {a2}', f' -> {a1}') for a2 in ANNOTS] + [(f'p: {a2}, *, q: {a1} = 1', f' -> {a2}') for a2 in ANNOTS]
-    src = '\n'.join(f'def f{i}({t}){ret}: pass' for i, (t, ret) in enumerate(rows)) + '\n'
+    src = PRELUDE + '\n'.join(f'def f{i}({t}){ret}: pass' for i, (t, ret) in enumerate(rows)) + '\n'
     s = pd.build_mem([pd.Mod('m', src)])
     for i, (t, ret) in enumerate(rows):
         fn = s.allobjects[f'm.f{i}']
